@@ -1581,6 +1581,8 @@ def search(run: Run):
     for i in range(0, len(progs), 3000):
         out.extend(compare(sub, cfg, progs[i:i + 3000], record=False))
     run.notes.append(f'search: {len(progs)} systematic small programs, {len(out)} disagreements')
+    from harness import c16_containers
+    out.extend(c16_containers.search(run, cfg))
     return out
 
 
@@ -1635,6 +1637,9 @@ def sig(d: Disagreement):
 def shrink(d: Disagreement) -> Disagreement:
     if not isinstance(d.case, dict) or 'program' not in d.case:
         return d
+    if d.case.get('container'):
+        from harness import c16_containers
+        return c16_containers.shrink(d)
     sub = Run(PROP, 'quick', 0)
     cfg = d.case.get('cfg', '001')
     # re-read the program from its protocol text is not needed: shrink on the python tree kept aside
@@ -1675,13 +1680,17 @@ def body(run: Run) -> int:
                         'static partial applications name(?, v, …) only with literal fixed arguments (the code evaluates them at call time)',
                         'the key function of sort is called once per item in the model (the code calls it in every '
                         'comparison): equal by call_repeatable']
-    run.prove(['EPV.Props.C16'], ['EPV.Model.Closures', 'EPV.Spec.ClosureSem'])
+    run.prove(['EPV.Props.C16', 'EPV.Props.C16Containers'],
+              ['EPV.Model.Closures', 'EPV.Spec.ClosureSem', 'EPV.Model.Containers', 'EPV.Spec.ContainerSem'])
     cfg = detect_cfg(run)
     run.cfg16 = cfg
     run.stats.extra['cfg'] = {'share(F16 present)': cfg[0], 'leak(F05 present)': cfg[1],
                               'lexical(F05c repaired)': cfg[2]}
     try:
         correspond(run, cfg)
+        # phase 5: arrays and maps holding function items (Props/C16Containers.lean)
+        from harness import c16_containers
+        c16_containers.correspond(run, cfg)
     except DriverError as e:
         run.broken.append('driver:C16 ' + str(e)[:300])
     return run.finish('proof', shrink=shrink, search=search)
